@@ -289,6 +289,10 @@ func ReplayFile(path string) (*ViolationRecord, *RunCtx, error) {
 		return &vr, nil, errors.New("replay of a race-arm violation needs the race build (use ./check <prop> --replay <file>)")
 	}
 	rc := &RunCtx{Prop: vr.Property, Tier: vr.Tier, Seed: vr.Seed, Index: vr.Index, Arm: vr.Arm, T: ReplayTape(vr.Tape), ReplayBlob: vr.Blob}
+	if vr.Viol.Class == "worker-crash" && len(vr.Tape) == 0 {
+		// the worker died inside this run: re-execute the run index itself
+		rc.T = NewTape(vr.Seed, vr.Property, vr.Index)
+	}
 	execOne(e, rl, rc)
 	return &vr, rc, nil
 }
@@ -592,11 +596,16 @@ func RunCheck(o Options) int {
 			cmd := exec.Command(bin, "shrink", rawPath, outPath)
 			cmd.Env = raceEnv(v.Arm)
 			if ob, err := cmd.CombinedOutput(); err != nil {
-				fmt.Fprintf(os.Stderr, "INFRASTRUCTURE: shrinking %s failed: %v\n%s\n", rawPath, err, ob)
-				return 2
+				// the shrinker died (a candidate input crashed the process): keep the unminimised case
+				fmt.Printf("note: shrinking %s failed (%v: %s); reporting the unminimised case\n", rawPath, err, truncate(firstLine(string(ob)), 200))
+				v.Note = "not minimised: the shrinking process crashed on a candidate"
+				rb, _ := json.MarshalIndent(&v, "", " ")
+				os.WriteFile(outPath, rb, 0o644)
+				final = v
+			} else {
+				nb, _ := os.ReadFile(outPath)
+				json.Unmarshal(nb, &final)
 			}
-			nb, _ := os.ReadFile(outPath)
-			json.Unmarshal(nb, &final)
 			os.Remove(rawPath)
 		} else {
 			os.Rename(rawPath, outPath)
@@ -736,6 +745,13 @@ func crashKey(out string) string {
 		return "crash:" + m[1] + ":" + truncate(msg, 80)
 	}
 	return "crash:unknown"
+}
+
+func firstLine(s string) string {
+	if i := strings.Index(s, "\n"); i >= 0 {
+		return s[:i]
+	}
+	return s
 }
 
 func truncate(s string, n int) string {
